@@ -126,7 +126,7 @@ def _child(job, conn):
         conn.close()
 
 
-JOB_TIMEOUT = {'quick': {'unit': 600, 'lemma': 240, 'canary': 400, 'bounded': 600, 'lean': 900},
+JOB_TIMEOUT = {'quick': {'unit': 600, 'lemma': 240, 'canary': 180, 'bounded': 600, 'lean': 900},
                'thorough': {'unit': 1500, 'lemma': 600, 'canary': 900, 'bounded': 1800, 'lean': 1500}}
 
 
